@@ -379,7 +379,7 @@ func init() {
 
 	check.RegisterProp("C07", func(tier string) []check.Job {
 		b2, b3 := 2, 2
-		budget := 100
+		budget := 240
 		if tier == "thorough" {
 			b2, b3 = 3, 2
 			budget = 900
@@ -397,7 +397,7 @@ func init() {
 			ld = 8
 		}
 		jobs = append(jobs, s1job("lifecycle", ld, []string{"C07"}, 4, budget))
-		jobs = append(jobs, s2sharded("c07-join-lastleave-create", b3, budget, 10)...)
+		jobs = append(jobs, s2sharded("c07-join-lastleave-create", b3, budget, 14)...)
 		return append(jobs, s2sharded("c07-lastleave-lastleave-create", b3, budget, 10)...)
 	}, check.PropInfo{
 		Rule: "S2: per scenario a setup history, then 2-3 requests fired at once; every interleaving of the connections' main-loop threads and session frame workers at lock/channel granularity with at most `bound` preemptions is executed on the real server (receiver/sender threads run eagerly); a state is one complete execution, a transition one choice point; distinct = distinct per-client message-type sequences. S1: BFS over join/switch/leave histories.",
